@@ -938,7 +938,9 @@ pub fn monitors(s: &Scenario, reference: &Reference, o: &SchedOutcome) -> Vec<(S
     // the fault-free reference) or reported with an exact prefix of the fault-free execution.
     if let Some((_, mode)) = &s.fault &&
         mode == "once" &&
-        let Err((k, e)) = &o.result
+        let Err((k, e)) = &o.result &&
+        // (a block whose fault-free in-order execution fails at k with this very error is judged below like any other)
+        !reference.error.as_ref().is_some_and(|(rk, re)| rk == k && re == e)
     {
         if !e.contains("injected fault") {
             v.push(("C04".into(), format!("reported error is not the injected fault: tx {k}: {e}")));
